@@ -104,6 +104,12 @@ def fvz(x):
     return [7, 3, f.numerator, f.denominator]
 
 
+def _tnum(t):
+    import re
+    m = re.search(r"(\d+)$", t)
+    return int(m.group(1)) if m else 0
+
+
 def snapshot(o, directory):
     ids = sorted(o.trials, key=int)
     disk = []
@@ -114,9 +120,9 @@ def snapshot(o, directory):
     return dict(
         st=[o.trials[i].status for i in ids], score=[o.trials[i].score for i in ids], runs=[o._run_times[i] for i in ids],
         tok=[token(o.trials[i].hyperparameters.values) for i in ids], disk=disk,
-        ongoing=[(int(t[1:]), int(tr.trial_id)) for t, tr in o.ongoing_trials.items()],
+        ongoing=[(_tnum(t), int(tr.trial_id)) for t, tr in o.ongoing_trials.items()],
         so=[int(x) for x in o.start_order], eo=[int(x) for x in o.end_order], rq=[int(x) for x in o._retry_queue],
-        tids=sorted(int(t[1:]) for t in o.tuner_ids), idfmt=[str(i) for i in ids],
+        tids=sorted(_tnum(t) for t in o.tuner_ids), idfmt=[str(i) for i in ids],
         remaining=o.remaining_trials())
 
 
